@@ -103,6 +103,16 @@ fn docs() -> Vec<Doc> {
           e("AA", "    substring:\n      source: $F\n      endChar: 2\n"),
           e("ZZ", "    replace:\n      source: $F\n      replace: q\n      by: Q\n")])],
       tail: "rewriters:\n- id: tag\n  rule:\n    kind: number\n    pattern: $N\n  fix: '$$$NAME($N)$$$AA$$$ZZ'\nfix: call($NEW, $NAME)\n".into(), class: "" },
+    // a chain of transformations whose sources name the earlier one in the `$$VAR` and `$$$VAR` spellings: the order
+    // of application must follow the dependencies whatever spelling carries them, not the order the map yields
+    Doc { head: "id: t10\nlanguage: TypeScript\nmessage: chained transformations $UP $LOW\nrule:\n  pattern: $F($$$ARGS)\n".into(),
+      maps: vec![
+        ("constraints".into(), vec![e("F", "    regex: '^qux$'\n")]),
+        ("transform".into(), vec![
+          e("REP", "    replace:\n      source: $F\n      replace: q\n      by: bb\n"),
+          e("UP", "    convert:\n      source: $$REP\n      toCase: upperCase\n"),
+          e("LOW", "    substring:\n      source: $$$UP\n      startChar: 1\n")])],
+      tail: "fix: $UP($LOW)\n".into(), class: "" },
     Doc { head: "id: t7\nlanguage: TypeScript\nmessage: relational reference 2\nrule:\n  any:\n    - matches: zz-call\n    - matches: in-call\n".into(),
       maps: vec![("utils".into(), vec![
         e("in-call", "    kind: number\n    has:\n      stopBy: end\n      any:\n        - matches: log-call\n        - kind: new_expression\n"),
@@ -364,7 +374,7 @@ pub fn run(o: &Opts) {
     std::fs::write(p.join("sgconfig.yml"), "ruleDirs: [rules]\ntestConfigs:\n  - testDir: tests\n").unwrap();
     for d in ds.iter().filter(|d| d.class.is_empty()) {
       let id = d.head.lines().next().unwrap().replace("id: ", "");
-      let invalid: Vec<&str> = match id.as_str() { "t1" => vec!["foo(abc, 12)", "foo(abx, 3)"], "t2" => vec!["qux(7, 'k', 8)"], "t3" => vec!["f(x, x)"], "t6" => vec!["console.log(1)"], "t7" => vec!["qux(7, 'k', 8)"], "t8" => vec!["qux(7, 'k', 8)"], "t9" => vec!["qux(7, 'k', 8)"], _ => vec!["bar([1, 's', 2], 3)"] };
+      let invalid: Vec<&str> = match id.as_str() { "t1" => vec!["foo(abc, 12)", "foo(abx, 3)"], "t2" => vec!["qux(7, 'k', 8)"], "t3" => vec!["f(x, x)"], "t6" => vec!["console.log(1)"], "t7" => vec!["qux(7, 'k', 8)"], "t8" => vec!["qux(7, 'k', 8)"], "t9" => vec!["qux(7, 'k', 8)"], "t10" => vec!["qux(7, 'k', 8)"], _ => vec!["bar([1, 's', 2], 3)"] };
       std::fs::write(p.join(format!("tests/{id}-test.yml")), format!("id: {id}\nvalid:\n  - \"nothing()\"\ninvalid:\n{}", invalid.iter().map(|s| format!("  - {}\n", serde_json::to_string(s).unwrap())).collect::<String>())).unwrap();
     }
     let snap = |p: &std::path::Path| -> BTreeMap<String, Vec<u8>> {
